@@ -348,10 +348,48 @@ def accept_for(key16):
 
 
 import weakref
+import threading as _threading
+_REAL_LOCKS = (type(_threading.Lock()),)        # (a re-entrant lock never blocks its own thread: left alone)
 _HOLDERS = weakref.WeakKeyDictionary()
 # abandoned iterators that the application still references (mechanism 'hold'): WebSocket object -> generator.  They are
 # released by the NEXT connection on that object, right after its connect() call -- the reconnecting idiom `events = ws.connect()`
 _HELD = weakref.WeakKeyDictionary()
+
+
+class SelfDeadlock(BaseException):
+    """the only thread of the simulation asked, blocking, for a lock it already holds: in real life it would wait for ever"""
+
+
+class DetectLock(object):
+    """the session's write lock in the single-threaded simulation: like threading.Lock, except that a blocking acquire by the
+    thread that already holds it -- a self-deadlock, which would hang the run -- is turned into SelfDeadlock (a BaseException, so
+    that it escapes the library and is reported as such)"""
+
+    def __init__(self):
+        self.held = False
+
+    def acquire(self, blocking=True, timeout=-1):
+        if self.held:
+            if not blocking:
+                return False
+            raise SelfDeadlock()
+        self.held = True
+        return True
+
+    def release(self):
+        if not self.held:
+            raise RuntimeError("release unlocked lock")
+        self.held = False
+
+    def locked(self):
+        return self.held
+
+    def __enter__(self):
+        self.acquire()
+        return self
+
+    def __exit__(self, *a):
+        self.release()
 
 
 class BusyLock(object):
@@ -434,6 +472,8 @@ def run_impl(sc, url="ws://example.test/chat", ws_kwargs=None, check_alias=True)
                 S.WebsocketSession.__init__(self, *a, **kw)
                 if holder["sc"].get("busy_lock"):
                     self._lock = BusyLock()
+                elif isinstance(getattr(self, "_lock", None), _REAL_LOCKS):
+                    self._lock = DetectLock()
 
             def _connect(self):
                 sc, run = holder["sc"], holder["run"]
